@@ -49,7 +49,7 @@ CONTAINERS = ["list", "tuple", "set", "frozenset", "Basis", "dictkeys", "gen", "
 def plan(tier):
     if tier == "quick":
         return {"runs": 30000, "chunk": 250, "wall_cap": 150}
-    return {"runs": 1500000, "chunk": 1000, "wall_cap": 3000}
+    return {"runs": 1000000, "chunk": 1000, "wall_cap": 900}
 
 
 def prepare(tier):  # pylint: disable=unused-argument
